@@ -61,6 +61,7 @@ def write_replay(pid, tier, seed, v):
         "index": v.get("index"),
         "chunk_start": v.get("chunk_start"),
         "prev_chunks": v.get("prev_chunks"),
+        "first_chunk": v.get("first_chunk"),
         "history": v.get("history"),
         "case": v.get("case"),
         "violation": {k: v[k] for k in ("site", "clause", "cls", "detail")},
@@ -72,7 +73,16 @@ def write_replay(pid, tier, seed, v):
     return path
 
 
-def replay(pid, path):
+def _replay_plans(body):
+    prev = body.get("prev_chunks") or []
+    first = body.get("first_chunk")
+    plans = [prev[len(prev) - d:] for d in range(0, len(prev) + 1)]
+    if first is not None:
+        plans += [[first] + [c for c in pl if c != first] for pl in plans]
+    return plans
+
+
+def replay(pid, path, plan=None):
     from . import engine
 
     with open(path) as f:
@@ -88,6 +98,24 @@ def replay(pid, path):
     engine._SEED = body["seed"]
     engine._worker_init()
     want = body["violation"]
+    if plan is not None:
+        chunks = _replay_plans(body)[plan]
+        for pfi, pstart, pstop in chunks:
+            pf = fams[pfi]
+            if pf.kind == "bfs":
+                continue
+            for i in range(pstart, pstop):
+                pf.run_index(i, body["seed"])
+        last = None
+        for i in range(min(body["chunk_start"], body["index"]), body["index"] + 1):
+            _case, last = fam.run_index(i, body["seed"])
+        for v in last.violations:
+            if (v["site"], v["clause"], v["cls"]) == (want["site"], want["clause"], want["cls"]):
+                print(f"  reproduced only after the calls that preceded it in its worker process (chunks {chunks} + indices "
+                      f"{body['chunk_start']}..{body['index']}): the library carries state between calls")
+                print("PLAN-REPRODUCED")
+                return 1
+        return 0
     if want["clause"] == "repeated-call-differs":
         if fam.kind == "bfs":
             differs = fam.replay_repeat(body["history"])
@@ -120,30 +148,17 @@ def replay(pid, path):
         print(f"REPLAY-REPRODUCED property={pid} replay={path}")
         return 1
     # The single case is clean in a fresh process.  If the library carries state from earlier calls, the failure needs
-    # its predecessors: re-execute the worker's chunk prefix (the cases that ran before it in the same process).
+    # its predecessors: re-execute, each time in a FRESH process, the worker's chunk prefix alone, then with 1..3 of
+    # the chunks the same worker ran just before, then additionally with the very first chunk that worker ever ran
+    # (a cache filled on first use).
     cs = body.get("chunk_start")
-    if fam.kind != "bfs" and cs is not None and body.get("index") is not None:
-        for depth in (0, 1, 2, 3):  # the chunk prefix alone, then with 1..3 of the chunks the same worker ran before
-            prev = (body.get("prev_chunks") or [])
-            if depth > len(prev):
-                break
-            if depth == 0 and cs >= body["index"]:
-                continue
-            for pfi, pstart, pstop in prev[len(prev) - depth:]:
-                pf = fams[pfi]
-                if pf.kind == "bfs":
-                    continue
-                for i in range(pstart, pstop):
-                    pf.run_index(i, body["seed"])
-            last = None
-            for i in range(cs, body["index"] + 1):
-                _case, last = fam.run_index(i, body["seed"])
-            for v in last.violations:
-                if (v["site"], v["clause"], v["cls"]) == (want["site"], want["clause"], want["cls"]):
-                    print(f"  reproduced only after the calls that preceded it in its worker process ({depth} earlier chunk(s) + indices {cs}..{body['index']}): "
-                          f"the library carries state between calls")
-                    print(f"REPLAY-REPRODUCED property={pid} replay={path}")
-                    return 1
+    if fam.kind != "bfs" and cs is not None and body.get("index") is not None and plan is None:
+        for k in range(len(_replay_plans(body))):
+            rc = subprocess.run([sys.executable, "-W", "ignore", "-m", "mc.run", pid, "--replay", path, "--plan", str(k)], cwd=VERIF, capture_output=True, text=True)
+            if rc.returncode == 1:
+                print(rc.stdout.strip().splitlines()[-2] if len(rc.stdout.strip().splitlines()) >= 2 else "")
+                print(f"REPLAY-REPRODUCED property={pid} replay={path}")
+                return 1
     print(f"REPLAY-NOT-REPRODUCED property={pid} ({len(viol)} other violations)")
     return 0
 
@@ -154,7 +169,8 @@ def main(argv):
         return 2
     pid = argv[0]
     if argv[1] == "--replay":
-        return replay(pid, argv[2])
+        plan = int(argv[4]) if len(argv) > 4 and argv[3] == "--plan" else None
+        return replay(pid, argv[2], plan)
     tier = argv[1]
     if tier not in ("quick", "thorough"):
         print(__doc__)
